@@ -344,7 +344,7 @@ def stage1(run):
     # stringValueList through the real parser: real mofstr outputs + near-miss texts
     sl = [t for (_, t) in texts[:: (3 if run.thorough else 6)]]
     for _ in range(10000 if run.thorough else 1500):
-        parts = ['"' + gen_literal_body(rng) + '"' for _ in range(rng.choice([1, 1, 2, 3]))]
+        parts = ['"' + gen_literal_body(rng).replace("/", "|") + '"' for _ in range(rng.choice([1, 1, 2, 3]))]
         sl.append(rng.choice(['', ' ', '\n   ']).join(parts))
     ans = common.run_driver(PROP, [{'op': 'strlist', 'text': common.cps(t)} for t in sl])
     for t, a in zip(sl, ans):
@@ -517,7 +517,7 @@ def stage1_arrays(run):
             parts = []
             for _ in range(rng.choice([1, 2, 3])):
                 parts.append(rng.choice(['', ' ', '\n  ']).join(
-                    '"' + gen_literal_body(rng) + '"' for _ in range(rng.choice([0, 1, 1, 2]))))
+                    '"' + gen_literal_body(rng).replace("/", "|") + '"' for _ in range(rng.choice([0, 1, 1, 2]))))
             texts.append((rng.choice([', ', ',', ' ,\n']).join(parts) + rng.choice(['', '', ',']), None, None))
     ans = common.run_driver(PROP, [{'op': 'strarray', 'text': common.cps(t)} for t, _, _ in texts])
     for (t, v, c), a in zip(texts, ans):
